@@ -19,8 +19,8 @@ theorem pow2b_spec {u : Nat} (h : pow2b u = true) : ∃ k, k ≤ 63 ∧ u = 2 ^ 
 mutual
 /-- The type is serializable and deserializable by the crate as the code stands, and all its
     alignment units are powers of two (which excludes ranges over index types whose size is not a
-    power of two — recorded as a known finding — and nothing else). Zero-copy enums are outside
-    this predicate: their theorems are the `…_partial` ones. -/
+    power of two — recorded as a known finding — and nothing else). Zero-copy enums (`repr(C)`: a
+    4-byte tag followed by the union of the variants) are included. -/
 def Ty.wf : Ty → Bool
   | .prim _ => true
   | .phantom _ => true
@@ -37,7 +37,7 @@ def Ty.wf : Ty → Bool
   | .rangeFull => true
   | .adt m vs =>
       pow2b m.alignAttr && Variants.wf vs && decide (vs.length < 2^64) &&
-      (if m.zero then !m.isEnum && Variants.allZC vs else true) &&
+      (if m.zero then Variants.allZC vs && decide (vs.length < 2^32) else true) &&
       (m.isEnum || vs.length == 1)
   | .sliceRef _ => false
   | .serIter _ => false
